@@ -25,7 +25,13 @@ def one(sid):
         return sid, None, []
     wt = tempfile.mkdtemp(prefix="ubben_"); os.rmdir(wt)
     out = tempfile.mkdtemp(prefix="ubout_")
-    subprocess.run(["git", "-C", "/repo", "worktree", "add", "-q", "--detach", wt, "HEAD"], check=True)
+    for attempt in range(8):  # concurrent `git worktree add` calls can collide on the administrative files
+        if subprocess.run(["git", "-C", "/repo", "worktree", "add", "-q", "--detach", wt, "HEAD"], capture_output=True).returncode == 0:
+            break
+        import time as _t
+        _t.sleep(0.3 * (attempt + 1))
+    else:
+        raise RuntimeError("git worktree add failed")
     try:
         r = subprocess.run(["git", "-C", wt, "apply", patch], capture_output=True, text=True)
         if r.returncode:
